@@ -33,7 +33,7 @@ Exprs(k) ==
 AnyS == <<"any">>
 PScopes == <<AnyS, <<"eq", Ua>>, <<"in", Gg>>, <<"is", "User">>, <<"isin", "User", Gg>>, <<"eqslot">>, <<"inslot">>, <<"isinslot", "NS::T">>>>
 AScopes == <<AnyS, <<"eq", Av>>, <<"inset", <<Av, Ae>>>>, <<"inset", <<>>>>, <<"in", Av>>>>
-RScopes == <<AnyS, <<"eq", Dd>>, <<"is", "Doc">>, <<"inslot">>, <<"isin", "Doc", Gg>>>>
+RScopes == <<AnyS, <<"eq", Dd>>, <<"is", "Doc">>, <<"inslot">>, <<"isin", "Doc", Gg>>, <<"isinslot", "Doc">>, <<"eqslot">>>>
 Anns == << <<>>, <<<<"id", <<120>>>>>>, <<<<"a", <<>>>>, <<"b_c", <<34, 92, 10, Smile>>>>>> >>
 Pol(eff, pr, ac, re, conds, ann) == [effect |-> eff, principal |-> pr, action |-> ac, resource |-> re, conds |-> conds, annotations |-> ann, id |-> "p"]
 
